@@ -24,6 +24,7 @@ let parse_op (o : string) : lop option =
     | ["G"] -> Some LGate
     | ["U"] -> Some LUngate
     | [a; _] when a.[0] = 'b' -> Some (LBusy (num (rest_of a)))
+    | [a; _; "s"] when a.[0] = 'b' -> Some (LBusy (num (rest_of a)))   (* silence, then one NOOP: for the model the same step *)
     | [a] when a.[0] = 't' -> Some (LUpgrade (num (rest_of a)))
     | [a] when a.[0] = 'q' -> Some (LQuit (num (rest_of a)))
     | [a] when a.[0] = 'e' -> Some (LEnd (num (rest_of a)))
